@@ -128,16 +128,16 @@ def rule_bind(ctx):
     for fn, exp in BIND.items():
         b = prog.one(R + fn)
         items, labels = wire.grammar(b)
-        ret = canon(b.ret_expr(), labels=labels)
+        ret = wire.ret_canon(b, labels)
         ctx.check('bind', fn, 'Result::Ok{0: %s}' % exp in ret, b, '%s builds %s' % (fn, exp[:80]),
                   bad_detail='%s returns %s; expected fields bound as %s' % (fn, ret[:400], exp))
     for fn, exp in PUSH.items():
         b = prog.one(R + fn)
         items, labels = wire.grammar(b)
         pushes = [c for c in b.calls if mir.method_name(c.name) == 'push']
-        ok = len(pushes) == 1 and b.loop_depth(pushes[0].bb) == 1 and canon(b.op_expr(pushes[0].args[1]), labels=labels) == exp
+        ok = len(pushes) == 1 and b.loop_depth(pushes[0].bb) == 1 and wire.expr_canon(b, b.op_expr(pushes[0].args[1]), labels) == exp
         ctx.check('bind', fn, ok, pushes[0] if pushes else b, '%s pushes %s' % (fn, exp[:80]),
-                  bad_detail='%s pushes %s' % (fn, [canon(b.op_expr(c.args[1]), labels=labels) for c in pushes]))
+                  bad_detail='%s pushes %s' % (fn, [wire.expr_canon(b, b.op_expr(c.args[1]), labels) for c in pushes]))
         # one element per iteration of 0..count, into the vector that is returned
         if pushes:
             vec = canon(b.op_expr(pushes[0].args[0]))
@@ -288,7 +288,7 @@ def rule_ser(ctx):
         seq = [re.sub(r'^to_le_bytes\((.*)\)$', r'\1', s[2][0]).replace('self.', '') for s in util.builder_sequence(b, vec[0])]
         rbody = prog.one(R + fn)
         items, labels = wire.grammar(rbody)
-        ret = canon(rbody.ret_expr(), labels=labels)
+        ret = wire.ret_canon(rbody, labels)
         rorder = sorted(order, key=lambda f: int(re.search(r'%s: \w+#(\d+)' % f, ret).group(1)) if re.search(r'%s: \w+#(\d+)' % f, ret) else 99)
         ctx.check('ser', 'reader-order==serializer-order:%s' % ty.split('::')[-1], seq == rorder, b, 'serializer %s, reader %s' % (seq, rorder))
     # hashing
